@@ -158,6 +158,15 @@ Theorem slice_len_get : forall u vs r, lg u vs -> slice_ok r (zlen vs) -> lg (IS
 Proof. exact IterProofs.lg_slice. Qed.
 Print Assumptions slice_len_get.
 
+(*    No look-ahead: once the Slice's own Range cursor is exhausted (or the selection is empty) the Slice answers Terminal
+      without ANY call on its input - for every input u, well-behaved or not.  (Between two selected positions it takes
+      exactly |step| steps, all inside the chain: slice_view.)  The correspondence observes this through a probe. *)
+Theorem slice_touches_nothing_beyond : forall f d u r,
+  (forall c rv, ostep d r rv = None -> it_step repaired f d (ISlice u r) (CSlice c rv) = OVal None) /\
+  (ostart repaired d r = None -> it_start repaired f d (ISlice u r) = OVal None).
+Proof. exact (fun f d u r => conj (fun c rv => IterProofs.slice_exhausted_touches_nothing f d u r c rv) (IterProofs.slice_empty_touches_nothing f d u r)). Qed.
+Print Assumptions slice_touches_nothing_beyond.
+
 (*    slice_stack: omitted / negative-from-end / beyond-the-ends arguments are clamped into [0, n]
       (signed clamp, as repaired), so the Slice's range satisfies slice_ok. *)
 Theorem slice_stack_clamps : forall u n args, it_len repaired u = OVal n -> 0 <= n < box -> (length args <= 3)%nat ->
